@@ -490,6 +490,9 @@ func (r *Recomposer) recomp(v any, rv reflect.Value) {
 		reflect.Uint, reflect.Uint8, reflect.Uint16, reflect.Uint32, reflect.Uint64,
 		reflect.Float32, reflect.Float64,
 		reflect.String:
+		if v == nil {
+			panic(fmt.Errorf("can not convert nil to a %s", rv.Type()))
+		}
 		rv.Set(reflect.ValueOf(v).Convert(rv.Type()))
 
 	default:
@@ -498,6 +501,18 @@ func (r *Recomposer) recomp(v any, rv reflect.Value) {
 }
 
 func (r *Recomposer) setValue(v any, rv reflect.Value, sf *reflect.StructField) {
+	if v == nil {
+		switch rv.Kind() {
+		case reflect.Bool,
+			reflect.Int, reflect.Int8, reflect.Int16, reflect.Int32, reflect.Int64,
+			reflect.Uint, reflect.Uint8, reflect.Uint16, reflect.Uint32, reflect.Uint64,
+			reflect.Float32, reflect.Float64,
+			reflect.String:
+			// A null element is left as the zero value like a null struct member.
+			rv.Set(reflect.Zero(rv.Type()))
+			return
+		}
+	}
 	switch rv.Kind() {
 	case reflect.Bool:
 		if s, ok := v.(string); ok && sf != nil && strings.Contains(sf.Tag.Get("json"), ",string") {
